@@ -172,6 +172,11 @@ def arith(op, a, b):
     if op == '%':
         if x.im is not None or y.im is not None:
             raise OutOfSubset('% on complex')
+        if not x.is_int and isinstance(b, int) and not isinstance(b, bool) and b > 0:
+            xs = z3.simplify(x.re)
+            if z3.is_app(xs) and xs.decl().kind() == z3.Z3_OP_TO_REAL:
+                # integer-valued float: float % int is the integer remainder, as a float
+                return _mk(z3.ToReal(xs.arg(0) % z3.IntVal(b)), None, np_)
         if x.is_int and y.is_int:
             if not (isinstance(b, int) and b > 0):
                 raise OutOfSubset('integer % with non-constant or non-positive modulus')
